@@ -2170,18 +2170,36 @@ impl HnswBackend {
 
         // Crash-safe ordering:
         // 1) Persist snapshot pointer while keeping full WAL segment list.
-        // 2) Compact WAL files.
+        // 2) Decide which WAL segments are fully captured in the snapshot.
         // 3) Persist pruned WAL segment list.
+        // 4) Only then delete the files: a MANIFEST on disk never lists a segment
+        //    that has already been removed.
         manifest.save(&manifest_path)?;
 
         // WAL Compaction: Delete old WAL segments that are fully captured in the snapshot.
         // This prevents unbounded disk usage growth when WAL rotation is enabled.
-        let compacted = self.compact_old_wal_segments(
+        let segments_to_delete = self.compact_old_wal_segments(
             &persistence.data_dir,
             last_wal_seq,
             snapshot.timestamp,
             &mut manifest,
         )?;
+
+        manifest.latest_snapshot_wal_seq = Some(last_wal_seq);
+        manifest.save(&manifest_path)?;
+
+        let mut compacted = 0usize;
+        for wal_path in &segments_to_delete {
+            match std::fs::remove_file(wal_path) {
+                Ok(()) => compacted += 1,
+                Err(e) if e.kind() == std::io::ErrorKind::NotFound => {
+                    warn!(path = %wal_path.display(), "WAL segment already missing (skipping)");
+                }
+                Err(e) => {
+                    error!(path = %wal_path.display(), error = %e, "failed to delete old WAL segment");
+                }
+            }
+        }
         if compacted > 0 {
             info!(
                 compacted_segments = compacted,
@@ -2189,9 +2207,6 @@ impl HnswBackend {
                 "WAL compaction complete"
             );
         }
-
-        manifest.latest_snapshot_wal_seq = Some(last_wal_seq);
-        manifest.save(&manifest_path)?;
 
         // Reset insert counter
         *persistence.inserts_since_snapshot.write() = 0;
@@ -2965,13 +2980,13 @@ impl HnswBackend {
         snapshot_last_wal_seq: u64,
         snapshot_timestamp: u64,
         manifest: &mut Manifest,
-    ) -> Result<usize> {
-        let mut deleted_count = 0;
+    ) -> Result<Vec<PathBuf>> {
+        let mut segments_to_delete = Vec::new();
         let mut segments_to_keep = Vec::new();
 
         if snapshot_last_wal_seq == 0 && snapshot_timestamp == 0 {
             warn!("snapshot has no sequence or timestamp; skipping WAL compaction for safety");
-            return Ok(0);
+            return Ok(segments_to_delete);
         }
 
         // Always keep the last WAL segment (active WAL)
@@ -3058,33 +3073,16 @@ impl HnswBackend {
             }
 
             if all_entries_covered {
-                match std::fs::remove_file(&wal_path) {
-                    Ok(()) => {
-                        debug!(
-                            wal_segment = wal_name,
-                            wal_max_seq = max_seq,
-                            wal_max_ts = max_timestamp,
-                            snapshot_seq = snapshot_last_wal_seq,
-                            snapshot_ts = snapshot_timestamp,
-                            "deleted old WAL segment",
-                        );
-                        deleted_count += 1;
-                    }
-                    Err(e) if e.kind() == std::io::ErrorKind::NotFound => {
-                        warn!(
-                            wal_segment = wal_name,
-                            "WAL segment already missing (skipping)"
-                        );
-                    }
-                    Err(e) => {
-                        error!(
-                            wal_segment = wal_name,
-                            error = %e,
-                            "failed to delete old WAL segment",
-                        );
-                        segments_to_keep.push(wal_name.clone());
-                    }
-                }
+                debug!(
+                    wal_segment = wal_name,
+                    wal_max_seq = max_seq,
+                    wal_max_ts = max_timestamp,
+                    snapshot_seq = snapshot_last_wal_seq,
+                    snapshot_ts = snapshot_timestamp,
+                    "old WAL segment is fully covered by the snapshot",
+                );
+                // The file is removed by the caller, after the pruned list is durable.
+                segments_to_delete.push(wal_path);
             } else {
                 segments_to_keep.push(wal_name.clone());
             }
